@@ -30,6 +30,13 @@ Parts
                    key never stored / deleted is absent; after ``__setitem__`` size <=
                    capacity*(1+threshold); none of the ``capacity`` most recently used
                    keys is ever evicted.  Exhaustive short sequences + random long ones.
+                   D3: misbehaving user callables -- the ``size_alert`` hook raises Exception /
+                   BaseException at its n-th call (once, or from then on), or re-enters the
+                   cache (set / delete / get): only the callback's own exception may escape
+                   ``__setitem__``, and every later insert must restore the size bound and keep
+                   the most recently used keys (a leaked internal lock shows as unbounded growth).
+                   IdentitySet members whose __hash__ / __eq__ raise must never notice (identity
+                   only); immutabledict.union with a Mapping that raises leaves the subject intact.
                    D2: interleaving injection -- at every line of ``_manage_size`` (via
                    sys.monitoring LINE events) another "thread" deletes / stores / reads
                    entries; the outer ``__setitem__`` must not raise and values stay right.
@@ -41,7 +48,11 @@ Guards (what is deliberately NOT asserted)
   * exact LRU trimming size (trim-to-capacity is implementation detail) and recency
     effects of ``in`` (MutableMapping.__contains__ goes through __getitem__);
   * operators are given AbstractSet / IdentitySet operands as annotated; methods get
-    every iterable kind.
+    every iterable kind;
+  * OrderedSet members whose __hash__/__eq__ raise in the middle of an operation are NOT
+    generated: OrderedSet updates its set part and its list part in two steps (remove,
+    discard, pop, *_update leave them out of step when a member comparison raises) - members
+    with failing comparisons are not an "accepted kind" of argument in the property text.
 
 Known on the unchanged tree (kept firing with their own stable mechanisms):
   * ``orderedset-symdiff-update-dup-list``: ``symmetric_difference_update`` with a
@@ -66,7 +77,9 @@ META = {
     "soft_s": {"quick": 150, "thorough": 800},
     "exhaustive": {"quick": True, "thorough": True},
     "require": ["os_ops", "os_invariant_checks", "os_dup_args", "is_ops", "im_ops", "im_mutator_attempts",
-                "lru_ops", "lru_evictions_seen", "lru_bound_checks", "lru_injections", "alias_probes"],
+                "lru_ops", "lru_evictions_seen", "lru_bound_checks", "lru_injections", "alias_probes",
+                "lru_size_alert_calls", "lru_callback_faults", "lru_sets_after_fault", "is_faulty_member_ops",
+                "im_faulty_mapping_args"],
     "assumptions": ["reference models in vf/models/collections_gf.py are correct"],
 }
 
@@ -383,11 +396,14 @@ class LruRun:
     """one LRUCache + MLRU pair; ops: ("set",k) ("get",k) ("getitem",k) ("del",k) ("in",k)
     ("len",) ("iter",) ("values",)"""
 
-    def __init__(self, ctx, LRUCache, capacity, threshold):
+    def __init__(self, ctx, LRUCache, capacity, threshold, hook=None):
         from vf.models.collections_gf import MLRU
 
         self.ctx = ctx
-        self.cache = LRUCache(capacity, threshold)
+        self.hook = hook  # user-supplied size_alert callable (may raise / re-enter the cache)
+        self.fault_raised = None
+        self.faulted = False
+        self.cache = LRUCache(capacity, threshold, size_alert=hook) if hook is not None else LRUCache(capacity, threshold)
         self.m = MLRU(capacity, threshold)
         self.serial = 0
         self.recency_known = True
@@ -431,8 +447,31 @@ class LruRun:
         if kind == "set":
             self.serial += 1
             v = (k, self.serial)
-            cache[k] = v
+            if self.hook is None:
+                cache[k] = v
+                m.store(k, v)
+                return self.sync(True)
+            # the entry is stored before the size check runs, and the callback (which may
+            # re-enter the cache) runs inside the call: the model stores first
             m.store(k, v)
+            self.fault_raised = None
+            try:
+                cache[k] = v
+                raised = None
+            except BaseException as e:  # noqa: BLE001 - the callback may raise BaseException
+                raised = e
+            if raised is not None:
+                if raised is not self.fault_raised:
+                    if isinstance(raised, (KeyboardInterrupt, SystemExit)):
+                        raise raised
+                    return self.fail("setitem-raises", f"__setitem__({k!r}) raised {raised!r} (not the callback's exception)")
+                ctx.count("lru_callback_faults")
+                self.faulted = True
+                return self.sync(False)  # the failing call need not have trimmed
+            if self.fault_raised is not None:
+                return self.sync(False)  # exception swallowed: trimming of this call unspecified
+            if self.faulted:
+                ctx.count("lru_sets_after_fault")
             return self.sync(True)
         if kind in ("get", "getitem", "in"):
             known = k in m.data
@@ -542,7 +581,96 @@ def run_lru(ctx):
         ctx.case({"lru": [cap, thr], "ops": ops}, nontrivial=True)
         if k == 0:
             ctx.sample({"collection": "LRUCache", "capacity": cap, "threshold": thr, "ops": ops[:8]})
-    run_lru_injection(ctx, LRUCache)
+
+
+class CallbackFault(Exception):
+    pass
+
+
+class CallbackBaseFault(BaseException):
+    """a BaseException (cancellation / interrupt style) raised inside a user callback"""
+
+
+def run_lru_callbacks(ctx, LRUCache):
+    """User-supplied callables that misbehave: the ``size_alert`` hook raises (Exception or
+    BaseException) at its n-th call, or re-enters the cache (set / delete / get), or does
+    nothing.  The failing ``__setitem__`` may propagate the callback's exception; afterwards
+    the cache must still satisfy the model: values right, no phantom keys, size within
+    capacity*(1+threshold) after every later successful insert, most recently used kept.
+    Not sharded by time: a fixed enumeration (guaranteed minimum case count)."""
+    rng = ctx.rng
+    actions = ("raise-exc", "raise-base", "raise-exc-always", "reenter-set", "reenter-del", "reenter-get", "noop")
+    rounds = ctx.pick({"quick": 3, "thorough": 25})
+    idx = 0
+    for cap, thr in [(1, 0), (2, 0.5), (3, 1.0), (5, 0.25), (4, 0), (10, 0.5)]:
+        for action in actions:
+            for nth in (1, 2, 3):
+                for rnd in range(rounds):
+                    idx += 1
+                    if not ctx.mine(idx):
+                        continue
+                    state = {"calls": 0}
+                    holder = {}
+
+                    def hook(cache, action=action, nth=nth, state=state, holder=holder):
+                        r = holder["r"]
+                        state["calls"] += 1
+                        ctx.count("lru_size_alert_calls")
+                        hit = state["calls"] == nth or (action == "raise-exc-always" and state["calls"] >= nth)
+                        if not hit:
+                            return
+                        if action in ("raise-exc", "raise-exc-always"):
+                            r.fault_raised = CallbackFault(f"size_alert call {state['calls']}")
+                            raise r.fault_raised
+                        if action == "raise-base":
+                            r.fault_raised = CallbackBaseFault(f"size_alert call {state['calls']}")
+                            raise r.fault_raised
+                        ks = list(cache._data)
+                        if action == "reenter-set":
+                            r.serial += 1
+                            nk = 10000 + r.serial
+                            r.m.store(nk, (nk, r.serial))
+                            cache[nk] = (nk, r.serial)
+                        elif action == "reenter-del" and ks:
+                            k0 = min(ks, key=lambda k: cache._data[k][2][0])
+                            del cache[k0]
+                            r.m.delete(k0)
+                        elif action == "reenter-get" and ks:
+                            k0 = min(ks, key=lambda k: cache._data[k][2][0])
+                            cache.get(k0)
+                            r.m.touch(k0)
+
+                    r = LruRun(ctx, LRUCache, cap, thr, hook=hook)
+                    holder["r"] = r
+                    r.desc["size_alert"] = [action, nth]
+                    bound = int(cap * (1 + thr))
+                    nkeys = 4 * bound + 8
+                    nxt = 0
+                    for step in range(ctx.pick({"quick": 45, "thorough": 90}) + 3 * bound):
+                        x = rng.random()
+                        if x < 0.6:
+                            nxt += 1
+                            op = ("set", 100 + nxt)          # fresh key: grows the cache
+                        elif x < 0.75:
+                            op = ("set", rng.randrange(nkeys))
+                        elif x < 0.85:
+                            op = ("get", rng.randrange(nkeys))
+                        elif x < 0.93:
+                            op = ("getitem", 100 + rng.randint(max(1, nxt - bound), max(1, nxt)))
+                        else:
+                            op = ("del", rng.randrange(nkeys))
+                        if not r.step(op):
+                            break
+                    else:
+                        # quiescent: two more inserts must leave the cache within its bound
+                        for kx in (90001, 90002):
+                            if not r.step(("set", kx)):
+                                break
+                    ctx.count("lru_callback_runs")
+                    ctx.case({"lru-callback": [cap, thr, action, nth, rnd]}, nontrivial=state["calls"] > 0)
+                    if idx <= 2:
+                        ctx.sample({"collection": "LRUCache", "size_alert": [action, nth], "capacity": cap, "threshold": thr,
+                                    "ops": r.desc["ops"][:10]})
 
 
 def run_lru_injection(ctx, LRUCache):
@@ -641,6 +769,111 @@ def run_lru_injection(ctx, LRUCache):
                         ctx.case({"inj": desc, "rnd": rnd}, nontrivial=bool(inj.fired))
 
 
+class Raiser:
+    """a member whose __hash__ and __eq__ always raise: an identity-keyed set must never call them"""
+
+    __slots__ = ("n",)
+
+    def __init__(self, n):
+        self.n = n
+
+    def __hash__(self):
+        raise CallbackFault("__hash__ called")
+
+    def __eq__(self, other):
+        raise CallbackFault("__eq__ called")
+
+    __ne__ = __eq__
+
+    def __repr__(self):
+        return f"Raiser{self.n}"
+
+
+def run_faulty_members(ctx, sides):
+    """IdentitySet over members with raising __hash__/__eq__ (lock-step with the model, which
+    only uses id()); immutabledict.union / merge_with / constructor with a Mapping that raises
+    part-way: the exception propagates and the subject is untouched and still usable."""
+    import collections.abc
+
+    from vf.gen import collops_gf as G
+
+    rng = ctx.rng
+    H = [Raiser(i) for i in range(5)] + [[], 7]
+    n = ctx.pick({"quick": 60, "thorough": 1500})
+    for k in range(n):
+        st = [rng.randrange(len(H)) for _ in range(rng.randint(0, 5))]
+        ops = [G.is_random_op(rng, len(H)) for _ in range(rng.randint(4, 25))]
+        done = []
+        prev = None
+        for o, recs in G.is_sequence(sides, H, st, ops, follow_pop=True):
+            if o[0] != "init":
+                ctx.count("is_faulty_member_ops")
+                if not judge_is(ctx, H, st, done, o, recs[0], recs[1], prev):
+                    break
+                done.append(o)
+            prev = recs[0][1]
+        ctx.case({"is-raisers": st, "ops": ops}, nontrivial=True)
+
+    immutabledict = sides[0].immutabledict
+
+    class BadMapping(collections.abc.Mapping):
+        def __init__(self, d, fail_at, where):
+            self.d, self.fail_at, self.where, self.n = d, fail_at, where, 0
+
+        def _tick(self, where):
+            if where == self.where:
+                self.n += 1
+                if self.n >= self.fail_at:
+                    raise CallbackFault(where)
+
+        def __getitem__(self, k):
+            self._tick("getitem")
+            return self.d[k]
+
+        def __iter__(self):
+            self._tick("iter")
+            for k in self.d:
+                self._tick("next")
+                yield k
+
+        def keys(self):
+            self._tick("keys")
+            return super().keys()
+
+        def __len__(self):
+            return len(self.d)
+
+    for init in ({}, {"a": 1}, {"a": 1, "b": 2}):
+        for where in ("getitem", "iter", "next", "keys"):
+            for fail_at in (1, 2):
+                for meth in ("union", "merge_with", "ctor", "or"):
+                    for pre in ((), ({"z": 0},)):
+                        ctx.count("im_faulty_mapping_args")
+                        subj = immutabledict(init)
+                        bad = BadMapping({"b": 20, "c": 30}, fail_at, where)
+                        desc = {"init": init, "where": where, "fail_at": fail_at, "method": meth, "pre": list(pre)}
+                        try:
+                            if meth == "ctor":
+                                r = immutabledict(bad)
+                            elif meth == "or":
+                                r = subj | bad
+                            else:
+                                r = getattr(subj, meth)(*pre, bad)
+                            exc = None
+                        except (CallbackFault, TypeError) as e:
+                            exc, r = e, None
+                        if dict(subj) != init:
+                            ctx.violation(f"immutabledict-{meth}-mutated-by-failing-argument",
+                                          f"{init} became {dict(subj)} after {meth}() with a Mapping raising in {where}", desc)
+                        elif exc is None and meth in ("union", "merge_with") and dict(r) != {**init, **dict(*pre), "b": 20, "c": 30}:
+                            ctx.violation(f"immutabledict-{meth}-result", f"{meth} -> {dict(r)}", desc)
+                        else:
+                            again = subj.union({"q": 9})
+                            if dict(again) != {**init, "q": 9} or type(again) is not immutabledict:
+                                ctx.violation(f"immutabledict-{meth}-unusable-after-failing-argument", f"union -> {again!r}", desc)
+                        ctx.case({"im-bad": desc}, nontrivial=True)
+
+
 def run(ctx):
     from sqlalchemy import util
     from sqlalchemy.util import _collections_cy, _immutabledict_cy
@@ -652,6 +885,10 @@ def run(ctx):
     real = G.Side("real", util.OrderedSet, util.IdentitySet, util.immutabledict)
     assert util.OrderedSet is _collections_cy.OrderedSet and util.immutabledict is _immutabledict_cy.immutabledict
     sides = [real, G.model_side()]
+    # fixed-size parts first: they must never be cut by the soft deadline on a loaded machine
+    run_lru_callbacks(ctx, util.LRUCache)
+    run_lru_injection(ctx, util.LRUCache)
+    run_faulty_members(ctx, sides)
     run_os(ctx, sides)
     run_is(ctx, sides)
     run_im(ctx, sides)
